@@ -362,6 +362,21 @@ theorem C03_parser_store_refines : C03_parser_store_refines_full := by
   show (Store.run {} ops).1.cifs.getD 0 none = some s
   rw [hc]; rfl
 
+/-- **C03_storeOps_total** — the trace of EVERY parse into a new CIF HAS a translation into a store history: every recorded call finds
+    the handle its container got (`C03_calls_resolve`; the state after every creation has the old containers and the new one, and a
+    container has one path).  So the hypothesis `storeOps … = some ops` of the theorems here is always met:
+    `C03_parser_store_refines_total`. -/
+theorem C03_storeOps_total (o : Opts) (pol : Policy) (units : Str) : ∃ ops, storeOps o (storeTrace o pol [] units) = some ops :=
+  ParserSimF.storeOps_total o pol units
+
+/-- **C03_parser_store_refines_total** — no hypothesis left: for every option record, policy and input there IS the translated history,
+    every call of it returns CIF_OK, and the store then shows exactly the parser model's CIF. -/
+theorem C03_parser_store_refines_total (o : Opts) (pol : Policy) (units : Str) :
+    ∃ ops, storeOps o (storeTrace o pol [] units) = some ops ∧ (storeRun ops).2 = true ∧
+      ∃ s, (storeRun ops).1 = some s ∧ Store.abs s.db = (parse o pol [] units).cif := by
+  obtain ⟨ops, hso⟩ := C03_storeOps_total o pol units
+  exact ⟨ops, hso, C03_parser_store_refines o pol units ops hso⟩
+
 /-- **C03_parse_is_store_history** — the calls of EVERY parse (into a new CIF) are an IN-CONTRACT history of the store API from the
     empty world; hence the documented model with identities predicts every result and the final state (`C04_refines_from_start`), and
     every theorem of C04 / C05 / C06 / C07 about in-contract histories applies to what the parser built. -/
